@@ -37,6 +37,8 @@ inline std::string TS(uint64_t t) {return (t == kNever) ? std::string("never") :
 // inpulse <id> spawn <n> | want <id2> <t> | end <id2>     performed from inside <id>'s next Pulse()
 // end <id>                               EndSession() (the session leaves at the start of the next iteration)
 // out <id> <n>                           queue a Message of about n bytes for the session's (never reading) peer: its output policy has I/O to meter
+// fact <id 200|201> <ready 0|1>           add an accept factory (a real listening socket on an OS-chosen loopback port; nobody connects) with its own timer
+// ready <id> <0|1>                       the factory pauses / resumes accepting (IsReadyToAcceptSessions()): a paused factory keeps its timer
 // iter <delta>                           move the clock to (reported wake-up time + delta), run one server loop iteration
 inline Plan Gen(uint64_t seed)
 {
@@ -46,11 +48,14 @@ inline Plan Gen(uint64_t seed)
    auto tm = [&](Rng & r) -> std::string {const uint32_t k = r.below(10); if (k == 0) return "never"; if (k == 1) return "+0"; if (k == 2) return "0"; return "+" + U(1 + r.below(r.oneIn(3) ? 100000 : 50));};
    const int initial = 1 + (int) wl.below(12);
    for (int i=0; i<initial; i++) {const int id = nextId++; const bool s = wl.oneIn(3); sock[(size_t) id] = s; p.push_back("sess " + I(id) + " " + I(s) + " " + I(s ? ((int) wl.below(3) - 1) : -1)); alive.push_back(id); if (wl.pct(70)) p.push_back("want " + I(id) + " " + tm(wl)); if (wl.oneIn(5)) p.push_back("period " + I(id) + " " + U(1 + wl.below(60)));}
+   const int nfact = Rng(seed, "factories").oneIn(3) ? (1 + (int) wl.below(2)) : 0;
+   for (int f=0; f<nfact; f++) {p.push_back("fact " + I(200+f) + " " + I(wl.oneIn(3) ? 0 : 1)); if (wl.pct(70)) p.push_back("want " + I(200+f) + " " + tm(wl)); if (wl.oneIn(4)) p.push_back("period " + I(200+f) + " " + U(1 + wl.below(60)));}
    const int nops = 6 + (int) wl.below(40);
    for (int op=0; op<nops; op++)
    {
       const uint32_t k = wl.below(100);
       auto any = [&]() -> int {return alive.empty() ? 0 : alive[wl.below((uint32_t) alive.size())];};
+      if ((nfact > 0)&&(wl.oneIn(8))) {const int f = 200 + (int) wl.below((uint32_t) nfact); if (wl.oneIn(2)) p.push_back("ready " + I(f) + " " + I(wl.below(2))); else p.push_back("want " + I(f) + " " + tm(wl)); continue;}
       if (k < 30) {const int64_t d = wl.oneIn(4) ? -(int64_t)(1 + wl.below(20)) : (wl.oneIn(3) ? (int64_t)(1 + wl.below(200)) : 0); p.push_back("iter " + I(d));}
       else if (k < 50) {const int n = wl.oneIn(5) ? (100 + (int) wl.below(2)) : any(); p.push_back("want " + I(n) + " " + tm(wl));}
       else if (k < 56) {if (nextId < 380) {const int id = nextId++; const bool s = wl.oneIn(3); sock[(size_t) id] = s; p.push_back("sess " + I(id) + " " + I(s) + " " + I(s ? ((int) wl.below(3) - 1) : -1)); alive.push_back(id); p.push_back("want " + I(id) + " " + tm(wl));}}
@@ -76,7 +81,7 @@ inline Plan Gen(uint64_t seed)
 struct H;
 struct Shadow
 {
-   int id = -1; bool isPolicy = false; bool attached = false, everAttached = false, sock = false;
+   int id = -1; bool isPolicy = false, isFactory = false; bool attached = false, everAttached = false, sock = false;
    uint64_t want = kNever, reported = kNever; bool valid = false; int cause = 0;   // cause: 1 new, 2 invalidated, 3 pulsed
    uint64_t period = 0, pulsedIter = 0, retimedIter = 0; int holders = 0;   // retimedIter: iteration in which a callback withdrew our time in force
    std::vector<std::vector<std::string> > inPulse;
@@ -111,13 +116,25 @@ public:
    H * _h; int _id;
 };
 
+class PFactory : public ReflectSessionFactory
+{
+public:
+   PFactory(H * h, int id, bool ready) : _h(h), _id(id), _ready(ready) {}
+   virtual AbstractReflectSessionRef CreateSession(const String &, const IPAddressAndPort &) {return AbstractReflectSessionRef();}   // (nobody ever connects)
+   virtual bool IsReadyToAcceptSessions() const {return _ready;}
+   virtual uint64 GetPulseTime(const PulseArgs & args);
+   virtual void Pulse(const PulseArgs & args);
+   void Inv() {InvalidatePulseTime();}
+   H * _h; int _id; bool _ready;
+};
+
 struct H
 {
    RunResult & res; Stats & st; TraceHash th;
    ReflectServer * server = NULL;
    std::map<int, Shadow> sh;                        // id -> shadow (sessions 0.., policies 100/101)
    std::map<int, PSession *> sess; std::map<int, int> fdOf;
-   AbstractSessionIOPolicyRef pol[2];
+   AbstractSessionIOPolicyRef pol[2]; std::map<int, PFactory *> facts;
    bool failed = false; std::string fcls, fdetail;
    uint64_t iterNo = 0, lastNext = kNever, tSel = 0, mmPrep = kNever; bool sawSelect = false; std::vector<int> dueAtWait;
    int nextSpawnId = 1;
@@ -132,7 +149,7 @@ struct H
    }
    void Note(const char * cls, const std::string & d) {if (!failed) {failed = true; fcls = cls; fdetail = d;}}
    void Check() {if (failed) Fail(fcls, fdetail);}
-   std::string Desc(const Shadow & s) const {return std::string(s.isPolicy ? "I/O policy " : "session ") + I(s.id) + " (requested " + (s.valid ? TS(s.reported) : std::string("nothing in force")) + ")";}
+   std::string Desc(const Shadow & s) const {return std::string(s.isPolicy ? "I/O policy " : (s.isFactory ? "accept factory " : "session ")) + I(s.id) + " (requested " + (s.valid ? TS(s.reported) : std::string("nothing in force")) + ")";}
    bool IsAttached(const Shadow & s) const {return s.isPolicy ? (s.holders > 0) : s.attached;}
 
    // the server's wait: everything is prepared, nothing of this iteration has been pulsed yet
@@ -210,10 +227,19 @@ struct H
       if (r.IsError()) Fail("harness", std::string("AddNewSession failed: ") + r());
       sess[id] = ps; st.inc("sessions_added"); if (withSock) st.inc("sessions_with_socket");
    }
+   void AddFactory(int id, bool ready)
+   {
+      if ((id < 200)||(id > 201)||(sh.find(id) != sh.end())) return;
+      PFactory * f = new PFactory(this, id, ready); ReflectSessionFactoryRef ref(f);
+      uint16 port = 0;
+      if (server->PutAcceptFactory(0, ref, localhostIP, &port).IsError()) {st.inc("p.listening_socket_unavailable"); return;}   // (no loopback listener in this sandbox: the factory part is skipped)
+      Shadow & s = sh[id]; s.id = id; s.isFactory = true; s.attached = s.everAttached = true; s.cause = 1; facts[id] = f; st.inc("factories_added"); if (!ready) st.inc("p.factory_paused");
+   }
    void SetWant(int id, uint64_t t, bool fromCallback)
    {
       auto it = sh.find(id); if (it == sh.end()) return;
       Shadow & s = it->second; s.want = t; if (fromCallback) s.retimedIter = iterNo;
+      if (s.isFactory) {auto fi = facts.find(id); if (fi == facts.end()) return; if (s.valid) {s.valid = false; s.cause = 2;} fi->second->Inv(); return;}
       if (s.isPolicy) {if (s.valid) {s.valid = false; s.cause = 2;} static_cast<PPolicy *>(pol[id-100]())->Inv(); return;}
       auto si = sess.find(id); if ((si == sess.end())||(!s.attached)) return;
       if (s.valid) {s.valid = false; s.cause = 2;}
@@ -257,6 +283,8 @@ inline status_t PSession::AttachedToServer() {const status_t r = AbstractReflect
 inline void PSession::AboutToDetachFromServer() {Shadow & s = _h->sh[_id]; s.attached = false; s.valid = false; _h->sess.erase(_id); AbstractReflectSession::AboutToDetachFromServer();}
 inline void PPolicy::PolicyHolderAdded(const PolicyHolder &) {_h->sh[_id].holders++;}
 inline void PPolicy::PolicyHolderRemoved(const PolicyHolder &) {Shadow & s = _h->sh[_id]; if (s.holders > 0) s.holders--;}   // (what the policy last answered stays in force while nobody holds it: it is merely not consulted)
+inline uint64 PFactory::GetPulseTime(const PulseArgs & a) {return _h->OnQuery(_id, a.GetCallbackTime(), a.GetScheduledTime());}
+inline void PFactory::Pulse(const PulseArgs & a) {_h->OnPulse(_id, a.GetCallbackTime(), a.GetScheduledTime());}
 inline uint64 PPolicy::GetPulseTime(const PulseArgs & a) {return _h->OnQuery(_id, a.GetCallbackTime(), a.GetScheduledTime());}
 inline void PPolicy::Pulse(const PulseArgs & a) {_h->OnPulse(_id, a.GetCallbackTime(), a.GetScheduledTime());}
 
@@ -272,6 +300,8 @@ inline void Exec(const Plan & plan, RunResult & res)
       SetCurOp("C20S op %zu: %.200s", opIdx, line.c_str()); WatchdogArm(0); h.th.s(line);
       if (g_verbose) fprintf(stderr, "op %zu: %s  (clock %llu)\n", opIdx, line.c_str(), (unsigned long long) g_simNowUs);
            if ((t[0] == "sess")&&(t.size() >= 4)) h.AddSession((int) ToI(t[1]), t[2] == "1", (int) ToI(t[3]));
+      else if ((t[0] == "fact")&&(t.size() >= 3)) h.AddFactory((int) ToI(t[1]), t[2] == "1");
+      else if ((t[0] == "ready")&&(t.size() >= 3)) {auto fi = h.facts.find((int) ToI(t[1])); if (fi != h.facts.end()) {fi->second->_ready = (t[2] == "1"); if (!fi->second->_ready) h.st.inc("p.factory_paused");}}
       else if ((t[0] == "want")&&(t.size() >= 3)) {uint64_t tm; if (h.ParseT(t[2], tm)) h.SetWant((int) ToI(t[1]), tm, false);}
       else if ((t[0] == "period")&&(t.size() >= 3)) {auto it = h.sh.find((int) ToI(t[1])); if (it != h.sh.end()) it->second.period = ToU(t[2]);}
       else if ((t[0] == "inpulse")&&(t.size() >= 3)) {auto it = h.sh.find((int) ToI(t[1])); if (it != h.sh.end()) it->second.inPulse.push_back(std::vector<std::string>(t.begin()+2, t.end()));}
